@@ -742,7 +742,8 @@ fn deep_block(r: &mut RDoc, d: DeepDelta) {
     r.mods.push(m("KBase", None, &["p"], &[], &[]));
     r.mods.push(m("KX", Some("KBase"), &["x"], &[], &[]));
     r.mods.push(m("KY", Some("KBase"), &["y"], &[], &[]));
-    r.mods.push(m("KWrap(T <- KBase)", None, &[], &[("c", "T")], &[]));
+    // `c` is a cluster: the path `s/w/c/x` below names it without an index at its third element
+    r.mods.push(m("KWrap(T <- KBase)", None, &[], &[("c[2]", "T")], &[]));
     r.mods.push(m("KIface", None, &["ig", "ic[2]"], &[("w", "KWrap(KX)"), ("v", "KX")], &[("ig", "v/p", Some("KL"))]));
     let mut gates = vec!["ig", "ic[2]"];
     let mut subs = vec![("w", "KWrap(KX)"), ("v", "KX")];
@@ -767,7 +768,7 @@ fn deep_block(r: &mut RDoc, d: DeepDelta) {
         DeepDelta::ConnectionLink => conns[0].2 = None,
     }
     r.mods.push(m("KArg", None, &gates, &subs, &conns));
-    r.mods.push(m("KHost(S <- KIface)", None, &["out"], &[("s", "S")], &[("s/w/c/x", "out", None)]));
+    r.mods.push(m("KHost(S <- KIface)", None, &["out[2]"], &[("s", "S")], &[("s/w/c/x", "out", None)]));
     let e = r.mods.iter().position(|x| x.key == r.entry).expect("entry module");
     r.mods[e].subs.push(("kh".into(), "KHost(KArg)".into()));
 }
@@ -777,8 +778,8 @@ fn deep_denote(d: DeepDelta, root: &str, ex: &mut Expect) {
     let kh = join(root, "kh");
     let s = join(&kh, "s");
     let (w, v) = (join(&s, "w"), join(&s, "v"));
-    let c = join(&w, "c");
-    for (p, sym) in [(&kh, "KHost"), (&s, "KArg"), (&w, "KWrap"), (&c, "KX"), (&v, "KX")] {
+    let (c0, c1) = (join(&w, "c[0]"), join(&w, "c[1]"));
+    for (p, sym) in [(&kh, "KHost"), (&s, "KArg"), (&w, "KWrap"), (&c0, "KX"), (&c1, "KX"), (&v, "KX")] {
         ex.modules.insert(p.to_string(), sym.to_string());
     }
     let mut gate = |m: &str, g: &str, n: usize| {
@@ -786,21 +787,23 @@ fn deep_denote(d: DeepDelta, root: &str, ex: &mut Expect) {
             ex.gates.insert((m.to_string(), g.to_string(), n, i));
         }
     };
-    gate(&kh, "out", 1);
+    gate(&kh, "out", 2);
     gate(&s, "ig", 1);
     gate(&s, "ic", 2);
-    for m in [&c, &v] {
+    for m in [&c0, &c1, &v] {
         gate(m, "p", 1);
         gate(m, "x", 1);
     }
     let kl = Some((5000usize, std::time::Duration::from_millis(250).as_nanos(), 0u128, 0usize));
-    let mut conn = |a: (&str, &str), b: (&str, &str), l| {
-        let (a, b) = ((a.0.to_string(), a.1.to_string(), 0usize), (b.0.to_string(), b.1.to_string(), 0usize));
+    let mut conn = |a: (&str, &str, usize), b: (&str, &str, usize), l| {
+        let (a, b) = ((a.0.to_string(), a.1.to_string(), a.2), (b.0.to_string(), b.1.to_string(), b.2));
         let (x, y) = if a <= b { (a, b) } else { (b, a) };
         ex.conns.insert((x, y, l));
     };
-    conn((&s, "ig"), (&v, "p"), kl);
-    conn((&c, "x"), (&kh, "out"), None);
+    conn((&s, "ig", 0), (&v, "p", 0), kl);
+    // the cluster named in the middle of the path expands member by member against the gate cluster
+    conn((&c0, "x", 0), (&kh, "out", 0), None);
+    conn((&c1, "x", 0), (&kh, "out", 1), None);
     if d == DeepDelta::Superset {
         let u = join(&s, "u");
         ex.modules.insert(u.clone(), "KY".into());
